@@ -61,8 +61,23 @@ pub fn oracle(p: &Program) -> Vec<Violation> {
         }
         let r32 = |off: usize| u32::from_le_bytes([o.image[off], o.image[off + 1], o.image[off + 2], o.image[off + 3]]);
         let r16 = |off: usize| u16::from_le_bytes([o.image[off], o.image[off + 1]]) as u32;
-        // per handle kind: op index of the k-th handle
-        let of_kind = |k: HKind| -> Vec<&HandleRec> { o.handles.iter().filter(|h| h.kind == k).collect() };
+        // per handle kind: op index of the k-th handle-producing op of the program (a refused add
+        // keeps its number, it just has no handle)
+        struct HOp {
+            op: usize,
+        }
+        let of_kind = |k: HKind| -> Vec<HOp> {
+            flat[..o.step]
+                .iter()
+                .enumerate()
+                .filter(|(_, op)| match (k, op) {
+                    (HKind::Cache, Op::PpttCache { .. }) | (HKind::Proc, Op::PpttProc { .. }) | (HKind::Isa, Op::RhctIsa(..)) | (HKind::Cmo, Op::RhctCmo(..)) | (HKind::Iommu, Op::RimtIommu { .. }) => true,
+                    (HKind::Viot, Op::ViotPciIommu(..)) | (HKind::Viot, Op::ViotMmioIommu(..)) => true,
+                    _ => false,
+                })
+                .map(|(i, _)| HOp { op: i })
+                .collect()
+        };
         for h in o.handles.iter() {
             let e = &w.entries[eidx[h.op]];
             let ty_ok = if h.kind == HKind::Viot { e.ty == 3 || e.ty == 4 } else { e.ty == expect_type(h.kind) };
@@ -122,6 +137,9 @@ pub fn oracle(p: &Program) -> Vec<Violation> {
                 _ => {}
             }
             for (field, found, target) in refs {
+                if refused[target] {
+                    continue; // cannot happen: the referencing op would have been refused too
+                }
                 let want = w.entries[eidx[target]].offset as u32;
                 if found != want {
                     out.push(Violation::new(
@@ -199,6 +217,18 @@ pub fn run(ctx: &Ctx) {
             Op::ViotMmioEp { id: 1, base: 2, h: 1 },
             Op::ViotPciRange { first: b, last: b, h: 1 },
         ];
+        directed.push(p);
+    }
+    // nodes too large for their 16-bit length: the add must be refused, or every later handle
+    // must still be a true offset (never an offset computed from a wrapped length)
+    for n in [65_524u32, 65_525, 65_526, 65_527, 65_534, 65_535, 65_536, 65_537, 70_000, 131_072] {
+        let mut p = plain_program(Kind::Rhct, seed);
+        p.ops = vec![Op::RhctIsa(n), Op::RhctIsa(5), Op::RhctCmo(1, 2, 3), Op::RhctHart { uid: 7, isa: 1, cmos: vec![0] }, Op::RhctIsa(6), Op::RhctHart { uid: 8, isa: 2, cmos: vec![] }];
+        directed.push(p);
+        let mut p = plain_program(Kind::Rimt, seed);
+        let io = Op::RimtIommu { id: 1, base: Some(0x1000), pci: None, prox: None, wires: None };
+        let map = |i: u32| Some(vec![IdMap { src: 1, dst: 2, n: 3, iommu: i, ats: false, pri: true, rciep: false }]);
+        p.ops = vec![io.clone(), Op::RimtPlat { id: 2, name_len: n, maps: map(0) }, io.clone(), Op::RimtRc { id: 3, seg: 0, ats: true, pri: false, maps: map(1) }];
         directed.push(p);
     }
     table_list(ctx, "c05.directed", directed, &oracle, &nontrivial);
